@@ -28,7 +28,9 @@ def collect(chk, prop):
             for e1 in es:
                 if e0[2] != e1[2] or e0 == e1:
                     continue
-                tr = R.execute(dict(base, rng=("plan", R.edge_index_plan(base, e0[:2], e1[:2]))))
+                # vertex labels are not promised to be 0..N-1: every third proposal runs on a relabelled copy of the network
+                tr = R.execute(dict(base, rng=("plan", R.edge_index_plan(base, e0[:2], e1[:2])),
+                                    labels=["id", "shift", "big"][(len(traces) + aborted) % 3]))
                 if tr["aborted"] or tr["timeout"]:
                     aborted += 1
                     continue
@@ -65,7 +67,8 @@ def collect(chk, prop):
                 "ejk_order": rng.choice(["names", "reversed"]),
                 "keep_zero_keys": rng.random() < 0.5,          # zero pairings present as explicit 0.0 entries or absent keys
                 "zero_draws": rng.choice([0, 0, 6]),           # some uniform draws are exactly 0.0
-                "retarget": rng.random() < 0.25}               # built with another target, re-targeted through the setter
+                "retarget": rng.random() < 0.25,               # built with another target, re-targeted through the setter
+                "labels": rng.choice(["id", "id", "shift", "big"])}   # vertex labels 0..N-1, 1000 + 7v, or 70000 + v
         if rng.random() < 0.2:
             # object reuse: the same vertices carried other motifs (hence other joint degrees) in the network rewired before
             es0, jd0, _t = R.clean_network(rng, n, sizes, dens, names=names)
